@@ -64,6 +64,10 @@ Fixpoint walk (m : img) (prev : list Z) (ops : list op) (bufs : list (list Z)) (
   | [], [] => v_ok nt
   | o :: ops', obs :: bufs' =>
     let m' := run_op m o in
+    (* a caller buffer longer than the canvas needs (CreateFromBytes keeps the whole slice): the bytes
+       behind the last canvas row are not pixels of the canvas and must never change *)
+    let cut := gwib (ig m) * gH (ig m) in
+    if negb (bytes_eqb (skipn (Z.to_nat cut) obs) (skipn (Z.to_nat cut) prev)) then L [sym "specfail"; sym "c16-step"; I k; I 6] else
     match judge_step (ig m) (it m) o prev obs with
     | StepBad w => L [sym "specfail"; sym "c16-step"; I k; I w]
     | StepOk ch =>
@@ -85,12 +89,12 @@ Definition run_case (s : sexp) : sexp :=
       end
     else v_badcase
   | L [S n; I w; I h; B init; L ops; L bufs] =>
-    (* canvas created with CreateFromBytes(w, h, init): the caller's buffer (exactly ceil(w/8)*h
-       bytes here) becomes the image, padding bits included *)
+    (* canvas created with CreateFromBytes(w, h, init): the caller's buffer (at least ceil(w/8)*h
+       bytes) becomes the image, padding bits included *)
     if bytes_eqb n (str "seqb") then
       match dec_ops ops, dec_bufs bufs with
       | Some ops, Some bufs =>
-        if (w <? 0) || (h <? 0) || negb (zlen init =? ceil_div8 w * h) || negb (bytes_ok init) then v_badcase
+        if (w <? 0) || (h <? 0) || negb (ceil_div8 w * h <=? zlen init) || negb (bytes_ok init) then v_badcase
         else let m := with_data (new_image w h) init in walk m init ops bufs 0 false
       | _, _ => v_badcase
       end
